@@ -6,7 +6,7 @@
      files     per-cluster metadata files written by the model: field -> sequence of <<id, value>> rows
                (save_metadata drops None entries, sorts ids and OVERWRITES cluster_<field>.tsv; an
                all-None mapping leaves a header-only file)
-     foreign   foreign TSV/CSV files present: kind -> present (valid: its own field; malformed kinds:
+     foreign   foreign TSV/CSV files present: kind -> present (valid: its own field; multi: two fields with empty cells; malformed kinds:
                empty, garbage, header-only, short row; cluster_info.tsv is excluded by the loader)
      subset    the three _phy_spikes_subset files exist
      model     what the currently open model shows (set by Reload), or NoModel after Close
@@ -22,18 +22,23 @@ Ids == {0, 2}
 Mappings == { [x \in Ids |-> IF x = 0 THEN "i3" ELSE "good"], [x \in Ids |-> IF x = 0 THEN "none" ELSE "f15"],
               [x \in Ids |-> "none"], [x \in {2} |-> "i7"] }
 Versions == {"v1", "v2"}
-ForeignKinds == {"valid", "empty", "garbage", "headeronly", "shortrow", "info"}
+ForeignKinds == {"valid", "multi", "empty", "garbage", "headeronly", "shortrow", "info"}
+\* well-formed foreign files and what they contribute: "valid" has one value column; "multi" has two value
+\* columns with an EMPTY cell in each row (also in the first data row): cluster 0 has no fa, cluster 2 no fb
+ForeignFields == {"foreignfield", "fa", "fb"}
+FFieldsOf(k) == IF k = "valid" THEN {"foreignfield"} ELSE IF k = "multi" THEN {"fa", "fb"} ELSE {}
+FRows(f) == IF f = "foreignfield" THEN {<<0, "i5">>, <<2, "i7">>} ELSE IF f = "fa" THEN {<<2, "i7">>} ELSE {<<0, "i5">>}
 NoModel == [open |-> FALSE]
 
 VARIABLES scFile, files, foreign, subset, model, lastSaved, hist
 vars == <<scFile, files, foreign, subset, model, lastSaved, hist>>
+FPresent == UNION {FFieldsOf(k) : k \in {kk \in ForeignKinds : foreign[kk]}}
 RowsOf(mp) == LET keep == {x \in DOMAIN mp : mp[x] # "none"} IN
               [r \in 1..Cardinality(keep) |->
                  LET x == CHOOSE y \in keep : Cardinality({z \in keep : z < y}) = r - 1 IN <<x, mp[x]>>]
 \* what a load makes of the files: field -> {<<id, value>>}; fields without rows are absent
 MdOfFiles == LET own == {f \in DOMAIN files : files[f] # <<>>} IN
-             [f \in own \cup (IF foreign["valid"] THEN {"foreignfield"} ELSE {}) |->
-                 IF f = "foreignfield" THEN {<<0, "i5">>, <<2, "i7">>} ELSE SeqSet(files[f])]
+             [f \in own \cup FPresent |-> IF f \in ForeignFields THEN FRows(f) ELSE SeqSet(files[f])]
 View == [open |-> TRUE, sc |-> scFile, md |-> MdOfFiles, subset |-> subset]
 Init == /\ scFile = "init" /\ files = <<>> /\ foreign = [k \in ForeignKinds |-> FALSE] /\ subset = FALSE
         /\ model = View /\ lastSaved = <<>> /\ hist = <<>>
@@ -64,11 +69,10 @@ Spec == Init /\ [][Next]_vars
 \* ---- P-layer: the dictionary reference model
 Visible(mp) == {<<x, mp[x]>> : x \in {y \in DOMAIN mp : mp[y] # "none"}}
 ExpectedMd == LET own == {f \in DOMAIN lastSaved : Visible(lastSaved[f]) # {}} IN
-              [f \in own \cup (IF foreign["valid"] THEN {"foreignfield"} ELSE {}) |->
-                  IF f = "foreignfield" THEN {<<0, "i5">>, <<2, "i7">>} ELSE Visible(lastSaved[f])]
+              [f \in own \cup FPresent |-> IF f \in ForeignFields THEN FRows(f) ELSE Visible(lastSaved[f])]
 ReloadShowsLastSaved == [][ (model' # model /\ model'.open) =>
                               (model'.sc = scFile /\ model'.md = ExpectedMd /\ model'.subset = subset) ]_vars
 \* malformed or excluded foreign files never change what a reload shows
-ForeignIsInert == model.open => \A f \in DOMAIN model.md : f \in Fields \cup {"foreignfield"}
+ForeignIsInert == model.open => \A f \in DOMAIN model.md : f \in Fields \cup FPresent
 EmitCase == (KeepHist /\ Len(hist) = Depth /\ hist[Depth].op = "reload") => Emit([hist |-> hist])
 ====
